@@ -50,6 +50,7 @@ SETTINGS: Dict[str, Dict[str, Any]] = {
 PROFILES = [
     Profile(amount_style="mixed", price_style="wide", p_optional_fiat=0.5, max_events=18),
     Profile(amount_style="huge", price_style="wide", p_optional_fiat=0.3, max_events=14),
+    Profile(amount_style="huge", price_style="digits", p_optional_fiat=0.2, p_intra=0.35, max_events=14),  # products that do not fit 31 digits
     Profile(amount_style="dust", price_style="wide", p_optional_fiat=0.3, max_events=14, min_transfer_fee_fiat=Decimal("0.0000000001")),
     Profile(amount_style="dec11", price_style="mixed", p_optional_fiat=0.6, p_inconsistent_fiat=0.8, p_in_fiat_fee=0.6, p_out_crypto_fee=0.7, max_events=20),
     Profile(amount_style="mixed", price_style="mixed", p_earn=0.6, p_optional_fiat=0.4),
